@@ -62,6 +62,7 @@ func monitor(c hxlib.Case, outs []string) (vs []hxlib.Violation) {
 	mgmt, startOK := false, false
 	firstCnt, lastSettle, lastSettleOthers := "", "", ""
 	firstPanicKind := "none"
+	workStarted := false
 	for i, l := range c.Lines {
 		if i >= len(outs) {
 			break
@@ -157,8 +158,8 @@ func monitor(c hxlib.Case, outs []string) (vs []hxlib.Violation) {
 				}
 			}
 		case "status", "settle":
-			if firstCnt == "" && fl["cnt"] != "" {
-				firstCnt = fl["cnt"]
+			if firstCnt == "" && fl["cnt"] != "" && !workStarted {
+				firstCnt = fl["cnt"] // the "previous values": read before any managed work was started
 			}
 			if op == "settle" {
 				lastSettle, lastSettleOthers = fl["cnt"], fl["others"]
@@ -172,6 +173,7 @@ func monitor(c hxlib.Case, outs []string) (vs []hxlib.Violation) {
 				it.flag = f[4]
 			}
 			items[f[1]] = it
+			workStarted = true
 			if strings.HasPrefix(o, "spawn noentry") {
 				add("C06:item-did-not-start:"+it.kind, "the managed function was never entered: "+o)
 			}
@@ -232,6 +234,7 @@ func monitor(c hxlib.Case, outs []string) (vs []hxlib.Violation) {
 				continue
 			}
 			res := strings.Split(fl["res"], ",")
+			workStarted = true
 			want := 0
 			for k, a := range f[1:] {
 				kv := strings.SplitN(a, "=", 2)
